@@ -252,6 +252,11 @@ def gen_file_cases(tier, rng, files):
             ops = gen_edit_ops(rng, 3) if k % 2 else []
             cases.append("create ver=%s shapes=%d seed=%d out=@O/%d.nif opts=%s%s" % (
                 g, k % 4, rng.randint(1, 10 ** 6), len(cases), rng.choice(["raw", "sort"] if ops else OPTS), (" ops=" + ";".join(ops)) if ops else ""))
+    # histories of the NifFile OBJECT: a model created in an object that held a loaded file before
+    for g in GAMES:
+        for k in range(2 if tier == "quick" else 12):
+            cases.append("create ver=%s shapes=%d seed=%d out=@O/%d.nif opts=%s reuse=@S/%s" % (
+                g, 1 + k % 3, rng.randint(1, 10 ** 6), len(cases), rng.choice(OPTS), rng.choice(files)))
     # 1-byte-sized creator string at and around the wrap (DESIGN.md 7 #10)
     for n in (254, 255, 256, 300, 511):
         cases.append("loadsave in=@S/%s out=@O/%d.nif opts=raw ops=C%s" % (files[0], len(cases), (b"A" * n).hex()))
